@@ -17,6 +17,7 @@ BIN = ["add", "sub", "mul", "div", "mod", "shl", "shr", "band", "bor", "bxor", "
        "land", "lor"]
 VALS_Q = [0, 1, -1, 2, 7, -8, 127, 2**31 - 1, -2**31, 2**62, 2**63 - 1]
 VALS_T = VALS_Q + [128, 255, 256, -129, 2**32, 2**31, -2**62, -2**63 + 1, 63, 64, 3]
+SHIFTS = [0, 1, 2, 7, 31, 32, 33, 40, 62, 63]
 CONTEXTS = ["init", "assign", "cond", "index", "arg", "ret", "print", "interp"]
 
 
@@ -53,8 +54,8 @@ def ctx_program(e_main, e_ret, a, b, contexts):
 
 def context_suite(vals, gates):
     for op in BIN:
-        for a in vals:
-            for b in vals:
+        for a in (vals if op not in ("shl", "shr") else vals + [2**40 + 5, -(2**40) - 5, 2**33]):
+            for b in (vals if op not in ("shl", "shr") else SHIFTS):
                 if op in ("shl", "shr") and not (0 <= b < 64):
                     continue
                 if op == "mod" and b == -1 and a == -2**63 + 0:
